@@ -414,6 +414,8 @@ def logger_fields(rep, tier):
             continue
         case = json.loads(json.loads(line)[2:])
         n += 1
+        if len(case["hist"]) >= 5 and n % 3:
+            continue   # thorough tier: TLC checks every history of length 5 (1.5 M), every third is replayed on a real logger
         buf = io.StringIO()
         lg = Logger(buf, 1)
         ver = 0
